@@ -42,7 +42,7 @@ def replay_instances(ctx):
         inst("basic-push", push=True),
         # two concurrently open streams (routing, per-protocol counts of 2, a table change between the
         # open and the first use of one stream while the other is served)
-        inst("basic-2streams", slots=2, reqs="MCReqs2", entries="MCEntriesSmall", tokens="MCTokens2"),
+        inst("basic-2streams", slots=2, reqs="MCReqs2abc", entries="MCEntriesSmall", tokens="MCTokens2"),
         # the second host implementation: always negotiates
         inst("blank-2streams", host="blank", slots=2, reqs="MCReqs2", entries="MCEntriesSmall"),
         # BOTH hosts serve and dial on the one connection (one entry each out of 3, request lists of 1..2 ids): what a
